@@ -276,6 +276,11 @@ impl<SP: StorageProvider, PS: PolicyStore> Transaction<SP, PS> {
         parent: Address,
         buffer: &mut TraversalBuffer,
     ) -> Result<(), ClientError> {
+        // `get_perspective` may open a fresh, empty perspective at `parent` and
+        // drop `parent` from the tips. Remember how to undo that if the command
+        // is rejected: an empty perspective cannot be written out.
+        let fresh = self.phead != Some(parent.id);
+        let parent_tip = self.heads.get(&parent.id).copied();
         let perspective = self.get_perspective(parent, storage, buffer)?;
 
         let policy_id = perspective.policy();
@@ -292,6 +297,13 @@ impl<SP: StorageProvider, PS: PolicyStore> Transaction<SP, PS> {
         ) {
             perspective.revert(checkpoint)?;
             sink.rollback();
+            if fresh {
+                self.perspective = None;
+                self.phead = None;
+                if let Some(loc) = parent_tip {
+                    self.heads.insert(parent.id, loc);
+                }
+            }
             return Err(e.into());
         }
         perspective.add_command(command)?;
